@@ -240,6 +240,19 @@ pub fn check(c: &Case) -> Outcome {
                 }
                 m[i * n + i] = 1.0 + rowsum * 1.5 + off[i % off.len()].abs();
             }
+            // one case in three: the rows of M cyclically shifted by one (P M y' = P M g is the same equation): still
+            // well conditioned, no longer diagonally dominant, and with ml = 0 the diagonal of P M is exactly zero in
+            // rows whose off-diagonal entries carry the equation (only Full storage can hold it)
+            let permuted = n >= 2 && off.len() >= 64 && off[61] > 0.3;
+            if permuted {
+                let src = m.clone();
+                for i in 0..n {
+                    for j in 0..n {
+                        m[i * n + j] = src[((i + 1) % n) * n + j];
+                    }
+                }
+            }
+            let zero_diag = (0..n).any(|i| m[i * n + i] == 0.0);
             let not_diag = (0..n).any(|i| (0..n).any(|j| i != j && m[i * n + j] != 0.0));
             let mm = Matrix::from_vec(n, n, m.clone());
             let rhs = MassRhs { inner: &prob, m: &m };
@@ -255,7 +268,7 @@ pub fn check(c: &Case) -> Outcome {
                 Err(e) => return Outcome::viol(format!("RADAU with a Full mass matrix: {}", e)),
             };
             if full.status != Status::Success {
-                return Outcome::viol(format!("RADAU: y'=g succeeds but M y' = M g (M diagonally dominant, Full storage) ends with {}", status_name(full.status)));
+                return Outcome::viol(format!("RADAU: y'=g succeeds but M y' = M g (M well conditioned, Full storage) ends with {}", status_name(full.status)));
             }
             // cond(M) <= ~ (1 + 2.5 r)/(1 + 0.5 r) < 5
             for (t, y) in full.t.iter().zip(&full.y) {
@@ -266,7 +279,7 @@ pub fn check(c: &Case) -> Outcome {
                 }
             }
             // banded storage holding the same entries: bit-identical
-            if ml < n - 1 || mu < n - 1 || n == 1 {
+            if !permuted && (ml < n - 1 || mu < n - 1 || n == 1) {
                 let bnd = match solve_with(&rhs, c, &y0, true, None, Some(&mm), &Extra { mass_storage: Some(MatrixStorage::Banded { ml, mu }), ..Default::default() }) {
                     Ok(s) => s,
                     Err(e) => return Outcome::viol(format!("RADAU with a Banded{{{},{}}} mass matrix: {}", ml, mu, e)),
@@ -291,7 +304,7 @@ pub fn check(c: &Case) -> Outcome {
                     return Outcome::viol(format!("RADAU: M y' = M g and (2^{k} M) y' = (2^{k} M) g give different runs: {} / {} steps vs {} / {} steps (n={})", status_name(full.status), full.naccpt, status_name(fs.status), fs.naccpt, n, k = k));
                 }
             }
-            Outcome::pass("mass-ode", not_diag, json!({"n": n, "ml": ml, "mu": mu, "naccpt": full.naccpt, "mass_scale_log2": k}))
+            Outcome::pass(if zero_diag { "mass-ode:zero-on-diagonal" } else if permuted { "mass-ode:row-permuted" } else { "mass-ode" }, not_diag, json!({"n": n, "ml": ml, "mu": mu, "naccpt": full.naccpt, "mass_scale_log2": k}))
         }
         Kind::Dae { n2, b, cs, ds } => {
             let rhs = DaeRhs { inner: &prob, n2: *n2, b, cs, ds };
@@ -583,7 +596,7 @@ pub fn run(ctx: &Ctx, known: &[Known]) -> Report {
     let stats = run_generated(ctx, "C15", "gen", &strategy, &check, cases, known);
     Report {
         id: "C15".into(),
-        rule: "six kinds of cases on closed-form problems (n<=6) and banded nonlinear systems (n<=8): (a) M y' = M g with M strictly diagonally dominant, dense or banded (all (ml,mu)), against the exact solution of y'=g, and Full vs Banded mass storage bit-identical, and both sides multiplied by 2^k (k up to +-100) bit-identical; (b) index-1 DAEs y1' = g(t,y1) + B(y2 - psi(y1)), 0 = psi(y1) - y2 with M = diag(I,0): constraint residual at every sample and y1 against the exact solution of the reduced ODE; (c) no mass override: mass_storage Identity / Full / Banded and the low-level RADAU::builder() defaults give the same run; (d) Full vs Banded Jacobian storage with an analytic banded Jacobian, Radau and BDF, bit-identical incl. counters; identity mass in Identity / Full / Banded{0,0}; (e) analytic vs finite-difference Jacobian both within the accuracy bound (a run that succeeds with the analytic one must succeed with the default one); (f) the default finite-difference Jacobian entry by entry against the analytic one at an on-solution state with component magnitudes 2^0..2^10 (tolerance = 4 x the forward-difference truncation term measured by the harness's own second difference + 16 x the measured rounding noise of f / delta), and the two runs. Non-trivial = M not diagonal / n2 >= 1 / bandwidth below n-1 / at least 3 steps. Distinct = distinct canonical JSON.".into(),
+        rule: "six kinds of cases on closed-form problems (n<=6) and banded nonlinear systems (n<=8): (a) M y' = M g with M strictly diagonally dominant, dense or banded (all (ml,mu)), against the exact solution of y'=g, and Full vs Banded mass storage bit-identical, and both sides multiplied by 2^k (k up to +-100) bit-identical; in a third of the cases the rows of M are cyclically shifted (the same equation, M no longer diagonally dominant; with ml = 0 its diagonal is exactly zero in rows that carry an equation in their off-diagonal entries; Full storage only); (b) index-1 DAEs y1' = g(t,y1) + B(y2 - psi(y1)), 0 = psi(y1) - y2 with M = diag(I,0): constraint residual at every sample and y1 against the exact solution of the reduced ODE; (c) no mass override: mass_storage Identity / Full / Banded and the low-level RADAU::builder() defaults give the same run; (d) Full vs Banded Jacobian storage with an analytic banded Jacobian, Radau and BDF, bit-identical incl. counters; identity mass in Identity / Full / Banded{0,0}; (e) analytic vs finite-difference Jacobian both within the accuracy bound (a run that succeeds with the analytic one must succeed with the default one); (f) the default finite-difference Jacobian entry by entry against the analytic one at an on-solution state with component magnitudes 2^0..2^10 (tolerance = 4 x the forward-difference truncation term measured by the harness's own second difference + 16 x the measured rounding noise of f / delta), and the two runs. Non-trivial = M not diagonal / n2 >= 1 / bandwidth below n-1 / at least 3 steps. Distinct = distinct canonical JSON.".into(),
         assumptions: vec!["accuracy bound as in C01 with cond(M) <= 5 for the diagonally dominant mass matrices".into(), "constraint residual bound C*tolscale*sqrt(naccpt)".into()],
         min_nontrivial_frac: 0.5,
         stats,
